@@ -568,9 +568,23 @@ def client_stream_scenario(rng):
             body += [i] + ([1] + val(t, rng.random() < 0.8) if rng.random() < 0.9 else [0])
         return [len(ids)] + body
 
-    for _ in range(rng.randrange(8, 18)):
+    # a signal that is registered only later: a stream that was told "not found" for it must accept it afterwards
+    late = ("Vehicle.C.Late", rng.choice([4, 1, 10]))
+    late_at = rng.randrange(2, 8)
+    for step in range(rng.randrange(8, 18)):
         c = rng.random()
         p = rng.choice([0, 0, 1, 1, 2, 3])
+        if step == late_at:
+            L.append([ADD, 0] + E.s(late[0]) + [late[1], rng.randrange(3), rng.choice([0, 2]), 0, 0, 0])
+            sigs.append((n, late[0], late[1], L[-1][-4]))
+            L.append([DUMP])
+        if step in (late_at - 1, late_at - 2, late_at, late_at + 1) and rng.random() < 0.8:
+            # the late signal by path (v1 stream) and by its future id (sdv stream), before and after it exists
+            pp = rng.choice([0, 0, 1])
+            L.append([V1STR, pp, 1, 1] + E.s(late[0]) + [1, 1, 1] + val(late[1]) + [0])
+            L.append([DUMP])
+            L.append([SDVSTR, pp, 1, n, 1] + val(late[1]))
+            L.append([DUMP])
         if c < 0.45:
             L.append([V1STR, p] + v1_updates())
         elif c < 0.8:
@@ -1685,6 +1699,26 @@ def c19_check(d, o, ctx):
                         fails.append("C19-class: V1GET of the existing %s %s reports %d" % (
                             "signal" if path in ctx.byname else "branch", path, first[0]))
             elif op in (V1SET, V1STR, SDVSET, SDVUPD, SDVSTR) and first and first[0] == 0 and len(first) > 1:
+                if op in (V1SET, V1STR) and not ctx.fuzzy:
+                    # "not found" is the class of an unknown signal only: an element whose path names a registered
+                    # signal may not be answered 404 (keys -(index+1) are the handler's own per-element answers)
+                    names, i = [], 3
+                    for _ in range(l[2]):
+                        if l[i] == 0:
+                            names.append(None)
+                            i += 1
+                        else:
+                            nm, i = _str(l, i + 1)
+                            names.append(nm)
+                        i += 1                      # fields
+                        _, i = _read_oov(l, i)
+                        _, i = _read_oov(l, i)
+                    for j in range(first[1]):
+                        k, c = first[2 + 2 * j], first[3 + 2 * j]
+                        if k < 0 and c == 404 and -k - 1 < len(names) and names[-k - 1] in ctx.byname:
+                            fails.append("C19-class: %s answers not_found for the registered signal %s" % (name, names[-k - 1]))
+                        if k >= 0 and c == 404 and k in ctx.paths:
+                            fails.append("C19-class: %s answers not_found for the registered signal %s" % (name, ctx.paths[k]))
                 tbl = V1_CLASS if op in (V1SET, V1STR) else None
                 for j in range(first[1]):
                     k, c = first[2 + 2 * j], first[3 + 2 * j]
